@@ -42,13 +42,17 @@ def glyph_name(codepoints):
     except TypeError:
         codepoints = [codepoints]
     name = "_".join((_name(c) for c in codepoints))
-    if len(name) > _MAX_NAME_LEN:
+    if len(_legal_start(name)) > _MAX_NAME_LEN:
         import hashlib
         import base64
 
         hash = hashlib.sha1()  # don't care if secure
         hash.update(name.encode("utf-8"))
         name = base64.b32encode(hash.digest()).decode("utf-8")
+    return _legal_start(name)
+
+
+def _legal_start(name):
     # names that already start with g_ (the letter g followed by more codepoints) get
     # the prefix too, otherwise (0x67, 0x1f600) and (0x1f600,) would both be g_1f600
     if not name[0].isalpha() or name.startswith("g_"):
